@@ -10,6 +10,7 @@ import (
 	"fmt"
 	"os"
 	"os/exec"
+	"runtime/debug"
 	"runtime/metrics"
 	"strings"
 	"sync/atomic"
@@ -47,6 +48,13 @@ func die(format string, a ...interface{}) {
 
 func setupProcess(nsites int, racelog string) {
 	nSites = nsites
+	// The garbage collector decides when sync.Pool contents are dropped, so
+	// its timing is a source of nondeterminism for any change that pools
+	// state.  Automatic collections are switched off; evaluate() collects at
+	// fixed points of the evaluation sequence instead (a pure function of
+	// the history a replay file records).  The memory limit is a safety net.
+	debug.SetGCPercent(-1)
+	debug.SetMemoryLimit(1536 << 20)
 	if racelog != "" {
 		if err := openRaceLog(racelog); err != nil {
 			die("race log: %v", err)
